@@ -215,6 +215,38 @@ theorem interpolate_ni [Inhabited S] (sc : Scalar S) {isZero : S → Bool} (newF
     simp only [hrow']
     simp only [hconf, hlen, hD']
 
+/-- **interpolation of ANY kind does not look under the mask**: whatever the interpolant (`linear`, `quadratic`, `cubic`, or the kind the code substitutes for short tracks),
+    it is only ever given the observed samples of a track, so related bodies give the SAME result -/
+theorem interpolateWith_ni [Inhabited S] (sc : Scalar S) {isZero : S → Bool} (kind : List S → List (List S) → S → List S) (newFps : S) (newFrames : Nat)
+    {b₁ b₂ : PBody S} (h : VisEq isZero b₁ b₂) :
+    interpolateBodyWith sc isZero kind newFps newFrames b₁ = interpolateBodyWith sc isZero kind newFps newFrames b₂ := by
+  cases h with
+  | mk fps d₁ d₂ c hv =>
+    have hD := hv.numDims fps
+    unfold numDimsBody at hD
+    simp only [mkC_data] at hD
+    have hrow : ∀ f p n, (if isZero (((c.getD f []).getD p []).getD n default) then none
+          else some ((((d₁.getD f []).getD p []).getD n []) ++ [((c.getD f []).getD p []).getD n default])) =
+        (if isZero (((c.getD f []).getD p []).getD n default) then none
+          else some ((((d₂.getD f []).getD p []).getD n []) ++ [((c.getD f []).getD p []).getD n default])) := by
+      intro f p n
+      have h1 := F3.getD hv f [] [] [] F3.nil
+      have h2 := F3.getD h1 p [] [] [] F3.nil
+      have h3 := F3.getD h2 n [] [] default ⟨rfl, fun _ => rfl⟩
+      cases hz : isZero (((c.getD f []).getD p []).getD n default) with
+      | true => rfl
+      | false => rw [h3.2 hz]
+    have hrow' : ∀ f p n, (if isZero ((((mkC isZero fps d₁ c).conf.getD f []).getD p []).getD n default) then none
+          else some (((((mkC isZero fps d₁ c).data.getD f []).getD p []).getD n []) ++ [(((mkC isZero fps d₁ c).conf.getD f []).getD p []).getD n default])) =
+        (if isZero ((((mkC isZero fps d₂ c).conf.getD f []).getD p []).getD n default) then none
+          else some (((((mkC isZero fps d₂ c).data.getD f []).getD p []).getD n []) ++ [(((mkC isZero fps d₂ c).conf.getD f []).getD p []).getD n default])) := hrow
+    have hconf : (mkC isZero fps d₁ c).conf = (mkC isZero fps d₂ c).conf := rfl
+    have hlen : (mkC isZero fps d₁ c).data.length = (mkC isZero fps d₂ c).data.length := hv.length_ab
+    have hD' : ((((mkC isZero fps d₁ c).data.headD []).headD []).headD []).length = ((((mkC isZero fps d₂ c).data.headD []).headD []).headD []).length := hD
+    unfold interpolateBodyWith
+    simp only [hrow']
+    simp only [hconf, hlen, hD']
+
 /-! ### programs: any sequence of the modelled operations -/
 
 inductive BOp (S : Type) where
@@ -227,6 +259,7 @@ inductive BOp (S : Type) where
   | bbox (sizes : List Nat)
   | focus
   | interpolate (newFps : S) (newFrames : Nat)
+  | interpolateWith (kind : List S → List (List S) → S → List S) (newFps : S) (newFrames : Nat)    -- quadratic / cubic: the interpolant (scipy) is a parameter
 
 def BOp.apply (be : Backend) (sc : Scalar S) (isZero : S → Bool) [Inhabited S] : BOp S → PBody S → Option (PBody S)
   | .selectFrames ixs, b => PoseVerif.selectFrames be isZero ixs b
@@ -238,6 +271,7 @@ def BOp.apply (be : Backend) (sc : Scalar S) (isZero : S → Bool) [Inhabited S]
   | .bbox sizes, b => some (bboxBody sc isZero sizes b)
   | .focus, b => (focusBody sc isZero b).map (·.1)
   | .interpolate nf n, b => interpolateBody sc isZero nf n b
+  | .interpolateWith kind nf n, b => interpolateBodyWith sc isZero kind nf n b
 
 def runOps (be : Backend) (sc : Scalar S) (isZero : S → Bool) [Inhabited S] : List (BOp S) → PBody S → Option (PBody S)
   | [], b => some b
@@ -274,6 +308,7 @@ theorem apply_ni (be : Backend) (sc : Scalar S) {isZero : S → Bool} [Inhabited
       cases h1 : focusBody sc isZero b₁ <;> cases h2 : focusBody sc isZero b₂ <;> rw [h1, h2] at this <;> simp_all [OptRel]
       exact Or.inr this.1
     | interpolate nf n => exact OptRel.of_eq (interpolate_ni sc nf n h)
+    | interpolateWith kind nf n => exact OptRel.of_eq (interpolateWith_ni sc kind nf n h)
 
 /-- **Non-interference for every program** of modelled operations: the two runs fail together or end in bodies that are equal or differ only under the mask. -/
 theorem run_ni (be : Backend) (sc : Scalar S) {isZero : S → Bool} [Inhabited S] (ops : List (BOp S)) {b₁ b₂ : PBody S} (h : Sim isZero b₁ b₂) :
